@@ -1,10 +1,526 @@
-"""Engines other than `explore` (filled in below)."""
+"""Engines other than `explore`: stateright histories, loom schedules, build lattice, digest
+variants, the client-program corpus (rustc as the judge) and the instruction-count leg.
 
+Each engine enumerates a finite space completely and reports what it covered into the Result of
+bin/check. A violation is written as a replay file (kind history / loom / build / digest /
+program / work) that `bin/check --replay` re-executes.
+"""
+import concurrent.futures
+import hashlib
+import json
+import os
+import re
+import shutil
+import subprocess
+import sys
+import time
+
+import lifetimes
+
+check = sys.modules.get("__main__")
+if not hasattr(check, "cargo_build"):  # imported from elsewhere (setup)
+    import importlib.machinery
+    import importlib.util
+    _p = os.path.join(os.path.dirname(os.path.abspath(__file__)), "check")
+    _loader = importlib.machinery.SourceFileLoader("verif_check", _p)
+    _spec = importlib.util.spec_from_loader("verif_check", _loader)
+    check = importlib.util.module_from_spec(_spec)
+    _loader.exec_module(check)
+
+VERIF = check.VERIF
+HARNESS = check.HARNESS
+TARGET = check.TARGET
+REPO = check.REPO
+REPLAYS = check.REPLAYS
+ENV = check.ENV
+Machinery = check.Machinery
+log = check.log
+run = check.run
+
+HOOK = "--cfg httparse_verif"
+
+
+def write_replay(name, body):
+    os.makedirs(REPLAYS, exist_ok=True)
+    path = os.path.join(REPLAYS, name)
+    with open(path, "w") as f:
+        json.dump(body, f, indent=1)
+    return path
+
+
+# ------------------------------------------------------------------------------------------
+# S4: stateright histories
+# ------------------------------------------------------------------------------------------
+
+def run_histories(res, model, prop):
+    binary = check.cargo_build("histories", "release")
+    out = os.path.join(TARGET, "journal", "hist-%s-%s-%d.json" % (model, prop, os.getpid()))
+    os.makedirs(os.path.dirname(out), exist_ok=True)
+    rc, so, se, dt = run([binary, model, res.tier, "--out", out, "--prop", prop, "--replays", REPLAYS], timeout=3000)
+    if rc not in (0, 1) or not os.path.exists(out):
+        raise Machinery("histories %s failed with status %d\n%s" % (model, rc, se[-3000:]))
+    with open(out) as f:
+        data = json.load(f)
+    os.remove(out)
+    for p in data["violations"]:
+        rc2, so2, _, _ = run([binary, "replay", p], timeout=300)
+        if rc2 != 1:
+            raise Machinery("history violation %s does not reproduce\n%s" % (p, so2))
+        log(so2)
+        with open(p) as f:
+            what = json.load(f).get("what", "")
+        res.add_violation(p, what)
+    res.states += data["states"]
+    res.transitions += data["transitions"]
+    res.traces += data["impl_executions"]
+    res.samples.extend(data.get("samples", [])[:3])
+    insts = data["instances"]
+    res.engines.append({
+        "engine": "histories/%s (stateright 0.31, spawn_dfs, real parser replayed on every transition)" % model,
+        "states": data["states"], "transitions": data["transitions"], "max_depth": data["max_depth"],
+        "impl_executions": data["impl_executions"], "model_instances": len(insts),
+        "instances_sample": insts[:6], "wall_s": data["wall_s"],
+    })
+
+
+# ------------------------------------------------------------------------------------------
+# S5: loom schedules
+# ------------------------------------------------------------------------------------------
+
+def run_loom(res):
+    binary = check.cargo_build("rtloom", "release")
+    configs = [(2, 2), (3, 1)] if res.tier == "quick" else [(2, 2), (3, 1), (3, 2), (4, 1)]
+    jobs = [(cpu, t, k) for cpu in ("avx2", "sse42", "none") for (t, k) in configs]
+    total_exec = 0
+    items = []
+
+    def one(job):
+        cpu, t, k = job
+        return job, run([binary, cpu, str(t), str(k)], timeout=3000)
+
+    with concurrent.futures.ThreadPoolExecutor(max_workers=8) as ex:
+        for job, (rc, so, se, dt) in ex.map(one, jobs):
+            cpu, t, k = job
+            if rc != 0:
+                msg = [l for l in se.splitlines() if "panicked" in l or "assertion" in l or "left" in l or "right" in l]
+                path = write_replay("C13-loom-%s-%dx%d.json" % (cpu, t, k), {
+                    "property": "C13", "kind": "loom", "cpu": cpu, "threads": t, "calls": k,
+                    "what": "an interleaving of first calls through the backend cache breaks an invariant",
+                    "detail": "\n".join(msg)[:2000]})
+                # deterministic exploration: the same configuration fails again
+                rc2, _, se2, _ = run([binary, cpu, str(t), str(k)], timeout=3000)
+                if rc2 == 0:
+                    raise Machinery("loom failure did not reproduce")
+                log(se[-1500:])
+                res.add_violation(path, "loom: " + "; ".join(msg)[:300])
+                continue
+            d = json.loads(so.strip().splitlines()[-1])
+            total_exec += d["executions"]
+            items.append(d)
+    res.states += total_exec
+    res.transitions += sum(d["dispatches"] for d in items)
+    res.samples.append({"loom": "simulated CPU sse4.2-only, 2 threads x 2 first calls through match_uri_vectored / match_header_value_vectored, every interleaving and every stale Relaxed read"})
+    res.engines.append({"engine": "rtloom (loom 0.7.2, unbounded preemptions, real src/simd/runtime.rs textually included)",
+                        "executions": total_exec, "configs": items})
+
+
+# ------------------------------------------------------------------------------------------
+# S6: build lattice and digest variants
+# ------------------------------------------------------------------------------------------
+
+def lattice_points(quick):
+    pts = []
+    for std in (True, False):
+        for dis in (False, True):
+            for ct in (False, True):
+                for tf in ("", "+sse4.2", "+avx2", "+sse4.2,+avx2"):
+                    pts.append((std, dis, ct, tf))
+    if quick:
+        keep = {(True, False, False, ""), (True, False, False, "+sse4.2"), (True, False, False, "+avx2"),
+                (True, True, False, "+avx2"), (True, False, True, "+sse4.2,+avx2"), (False, False, False, ""),
+                (False, False, False, "+avx2"), (True, True, True, "")}
+        pts = [p for p in pts if p in keep]
+    return pts
+
+
+def lattice_cmd(pt):
+    std, dis, ct, tf = pt
+    name = "std%d-dis%d-ct%d-%s" % (std, dis, ct, tf.replace("+", "").replace(",", "_").replace(".", "") or "none")
+    env = dict(ENV)
+    env["CARGO_TARGET_DIR"] = os.path.join(TARGET, "lattice", name)
+    if tf:
+        env["RUSTFLAGS"] = "-C target-feature=" + tf
+    if dis:
+        env["CARGO_CFG_HTTPARSE_DISABLE_SIMD"] = "1"
+    if ct:
+        env["CARGO_CFG_HTTPARSE_DISABLE_SIMD_COMPILETIME"] = "1"
+    cmd = ["cargo", "build", "--offline", "--lib"]
+    if not std:
+        cmd.append("--no-default-features")
+    return name, cmd, env
+
+
+def run_lattice(res, prop):
+    pts = lattice_points(res.tier == "quick")
+
+    def one(pt):
+        name, cmd, env = lattice_cmd(pt)
+        rc, so, se, dt = run(cmd, cwd=REPO, env=env, timeout=1200)
+        return pt, name, rc, se
+
+    ok = 0
+    with concurrent.futures.ThreadPoolExecutor(max_workers=8) as ex:
+        for pt, name, rc, se in ex.map(one, pts):
+            if rc == 0:
+                ok += 1
+                continue
+            errs = [l for l in se.splitlines() if l.startswith("error")]
+            path = write_replay("%s-build-%s.json" % (prop, name), {
+                "property": prop, "kind": "build", "point": list(pt),
+                "what": "this combination of build switches does not compile (no provider, or two providers, of a scanner entry point)",
+                "errors": errs[:10]})
+            log(se[-1500:])
+            res.add_violation(path, "build switches %s: %s" % (name, "; ".join(errs[:2])))
+    res.states += len(pts)
+    res.transitions += len(pts)
+    res.samples.append({"build": "cargo build --lib with std=%s CARGO_CFG_HTTPARSE_DISABLE_SIMD=%s ..._COMPILETIME=%s target-feature=%r" % pts[1]})
+    res.engines.append({"engine": "build lattice (cargo build --lib of /repo, one target dir per point, no hooks)",
+                        "points": len(pts), "built": ok,
+                        "space": "std on/off x DISABLE_SIMD x DISABLE_SIMD_COMPILETIME x target-feature {none,+sse4.2,+avx2,+sse4.2,+avx2}" + (" (8 corner points)" if res.tier == "quick" else " (all 32)")})
+
+
+VARIANTS = {
+    # name: (cargo args, extra rustflags, env)
+    "runtime": ([], "", {}),
+    "ct-sse42": ([], "-C target-feature=+sse4.2", {}),
+    "ct-avx2": ([], "-C target-feature=+avx2", {}),
+    "nosimd": ([], "", {"CARGO_CFG_HTTPARSE_DISABLE_SIMD": "1"}),
+    "nostd": (["--no-default-features"], "", {}),
+}
+
+
+def build_variant(name, profile):
+    args, flags, env = VARIANTS[name]
+    e = {"RUSTFLAGS": (HOOK + " " + flags).strip()}
+    e.update(env)
+    tdir = os.path.join(TARGET, "variants", name)
+    return check.cargo_build("digest", profile, extra_env=e, target_dir=tdir, extra_args=args)
+
+
+def digest_runs(tier):
+    """(label, variant, profile, backend)"""
+    runs = [("runtime/avx2", "runtime", "release", "avx2"), ("runtime/sse4.2", "runtime", "release", "sse42"),
+            ("runtime/scalar", "runtime", "release", "scalar"), ("compile-time sse4.2", "ct-sse42", "release", "native"),
+            ("compile-time avx2", "ct-avx2", "release", "native"), ("SIMD disabled", "nosimd", "release", "native"),
+            ("no_std", "nostd", "release", "native"), ("runtime/native, dev profile (debug assertions)", "runtime", "dev", "native")]
+    if tier != "quick":
+        runs += [("runtime/avx2 dev", "runtime", "dev", "avx2"), ("runtime/sse4.2 dev", "runtime", "dev", "sse42"),
+                 ("runtime/scalar dev", "runtime", "dev", "scalar"), ("compile-time sse4.2 dev", "ct-sse42", "dev", "native"),
+                 ("compile-time avx2 dev", "ct-avx2", "dev", "native"), ("SIMD disabled dev", "nosimd", "dev", "native"),
+                 ("no_std dev", "nostd", "dev", "native")]
+    return runs
+
+
+def run_digests(res, prop, partitions=None):
+    runs = digest_runs(res.tier)
+    builds = sorted(set((v, p) for _, v, p, _ in runs))
+    bins = {}
+    with concurrent.futures.ThreadPoolExecutor(max_workers=6) as ex:
+        for key, b in zip(builds, ex.map(lambda k: build_variant(*k), builds)):
+            bins[key] = b
+
+    def one(r):
+        label, v, p, backend = r
+        rc, so, se, dt = run([bins[(v, p)], "run", "--backend", backend], timeout=3000)
+        if rc != 0:
+            raise Machinery("digest %s failed: %s" % (label, se[-500:]))
+        rows = {}
+        for l in so.splitlines():
+            a = l.split()
+            if a[0] != "total":
+                rows[int(a[0])] = (int(a[1]), a[2])
+        return r, rows
+
+    results = []
+    with concurrent.futures.ThreadPoolExecutor(max_workers=8) as ex:
+        for r, rows in ex.map(one, runs):
+            results.append((r, rows))
+    base_r, base = results[0]
+    parts = sorted(base) if partitions is None else partitions
+    inputs = sum(base[p][0] for p in parts)
+    for r, rows in results[1:]:
+        for p in parts:
+            if rows[p] == base[p]:
+                continue
+            # narrow down to one input
+            a = run([bins[(base_r[1], base_r[2])], "dump", str(p), "--backend", base_r[3]], timeout=3000)[1].splitlines()
+            b = run([bins[(r[1], r[2])], "dump", str(p), "--backend", r[3]], timeout=3000)[1].splitlines()
+            diff = next(((x, y) for x, y in zip(a, b) if x != y), None)
+            if diff is None:
+                raise Machinery("digests of partition %d differ (%s vs %s) but the dumps are equal" % (p, base_r[0], r[0]))
+            ea, cfg, cap, hx = diff[0].split()[:4]
+            path = write_replay("%s-digest-p%d-%s.json" % (prop, p, hashlib.sha1(hx.encode()).hexdigest()[:12]), {
+                "property": prop, "kind": "digest", "partition": p,
+                "a": {"variant": base_r[1], "profile": base_r[2], "backend": base_r[3], "label": base_r[0]},
+                "b": {"variant": r[1], "profile": r[2], "backend": r[3], "label": r[0]},
+                "entry": ea, "config": int(cfg), "capacity": int(cap), "input_hex": hx,
+                "result_a": " ".join(diff[0].split()[4:]), "result_b": " ".join(diff[1].split()[4:]),
+                "what": "the same input parses differently under two build variants / backends / profiles"})
+            log("digest mismatch %s vs %s on %s: %s | %s" % (base_r[0], r[0], hx, diff[0].split()[4:], diff[1].split()[4:]))
+            res.add_violation(path, "%s vs %s differ on input %s" % (base_r[0], r[0], hx))
+            break
+    res.states += inputs * len(results)
+    res.transitions += inputs * len(results)
+    res.samples.append({"digest": "partition 4 (header-value lane-phase sweep): value of L=33 'v' bytes with byte 0x7f at position 31, parsed by every variant"})
+    res.engines.append({"engine": "digest variants (same enumerated corpus under every build variant / forced backend / profile; per-partition digests compared)",
+                        "variants": [r[0][0] for r in results], "partitions": len(parts), "inputs_per_variant": inputs})
+
+
+def run_cross_targets(res, prop, which):
+    """-Zbuild-std legs: core-only build, aarch64 (NEON) and i686 type-checks."""
+    legs = {
+        "core-only": (["cargo", "+nightly", "build", "--offline", "--lib", "-Zbuild-std=core", "--target", "x86_64-unknown-none", "--no-default-features"],
+                      "builds against core alone: the x86_64-unknown-none sysroot built here has no std and no alloc crate"),
+        "aarch64": (["cargo", "+nightly", "check", "--offline", "--lib", "-Zbuild-std=std", "--target", "aarch64-unknown-linux-gnu"],
+                    "NEON module type-checks against the real aarch64 intrinsics"),
+        "i686": (["cargo", "+nightly", "check", "--offline", "--lib", "-Zbuild-std=std", "--target", "i686-unknown-linux-gnu"],
+                 "32-bit target (word-at-a-time block = 4 bytes) type-checks"),
+    }
+    for name in which:
+        cmd, meaning = legs[name]
+        env = dict(ENV)
+        env["CARGO_TARGET_DIR"] = os.path.join(TARGET, "cross", name)
+        rc, so, se, dt = run(cmd, cwd=REPO, env=env, timeout=1800)
+        if rc != 0:
+            errs = [l for l in se.splitlines() if l.startswith("error")]
+            if any("E0463" in l or "can't find crate" in l or "unresolved" in l or "E0433" in l or "E0432" in l or "E0425" in l or "E0308" in l for l in errs) or errs:
+                path = write_replay("%s-cross-%s.json" % (prop, name), {"property": prop, "kind": "build", "cross": name, "cmd": cmd,
+                                                                          "what": "cross-target leg failed: " + meaning, "errors": errs[:10]})
+                log(se[-2000:])
+                res.add_violation(path, "%s: %s" % (name, "; ".join(errs[:2])))
+                continue
+            raise Machinery("cross-target leg %s could not run:\n%s" % (name, se[-2000:]))
+        res.states += 1
+        res.transitions += 1
+        res.engines.append({"engine": "cross-target leg " + name, "cmd": " ".join(cmd), "meaning": meaning, "wall_s": round(dt, 1)})
+
+
+# ------------------------------------------------------------------------------------------
+# S7: client-program corpus
+# ------------------------------------------------------------------------------------------
+
+BORROW_CODES = {"E0597", "E0505", "E0506", "E0499", "E0502", "E0515", "E0716", "E0521", "E0713", "E0621", "E0623",
+                "E0759", "E0312", "E0495", "E0700", "E0310", "E0503", "E0501", "E0594", "E0596", "E0382", "E0507", "E0508", "E0509"}
+
+
+def build_rlib():
+    env = dict(ENV)
+    tdir = os.path.join(TARGET, "rlib")
+    env["CARGO_TARGET_DIR"] = tdir
+    rc, so, se, dt = run(["cargo", "build", "--offline", "--release", "--lib"], cwd=REPO, env=env, timeout=1200)
+    if rc != 0:
+        raise Machinery("cannot build the httparse rlib:\n" + se[-2000:])
+    rlib = os.path.join(tdir, "release", "libhttparse.rlib")
+    return rlib, os.path.join(tdir, "release", "deps")
+
+
+def compile_program(src, rlib, deps, workdir, idx):
+    path = os.path.join(workdir, "p%d.rs" % idx)
+    with open(path, "w") as f:
+        f.write(src)
+    cmd = ["rustc", "--edition", "2018", "--crate-type", "lib", "--emit=metadata", "--error-format=json",
+           "-A", "warnings", "--extern", "httparse=" + rlib, "-L", "dependency=" + deps, "--out-dir", workdir,
+           "--crate-name", "p%d" % idx, path]
+    rc, so, se, dt = run(cmd, timeout=120)
+    codes, msgs = [], []
+    for l in se.splitlines():
+        try:
+            d = json.loads(l)
+        except ValueError:
+            continue
+        if d.get("level") == "error":
+            c = (d.get("code") or {}).get("code")
+            codes.append(c)
+            msgs.append(d.get("message", ""))
+    return rc, codes, msgs
+
+
+def run_lifetimes(res):
+    rlib, deps = build_rlib()
+    progs = lifetimes.corpus()
+    workdir = os.path.join(TARGET, "lifetimes-%d" % os.getpid())
+    shutil.rmtree(workdir, ignore_errors=True)
+    os.makedirs(workdir)
+
+    def one(i):
+        name, must, src = progs[i]
+        return i, compile_program(src, rlib, deps, workdir, i)
+
+    rejected = accepted = 0
+    try:
+        with concurrent.futures.ThreadPoolExecutor(max_workers=os.cpu_count() or 8) as ex:
+            for i, (rc, codes, msgs) in ex.map(one, range(len(progs))):
+                name, must, src = progs[i]
+                borrowish = any(c in BORROW_CODES for c in codes) or any("lifetime may not live long enough" in m or "does not live long enough" in m or "borrowed" in m for m in msgs)
+                if must == "reject":
+                    if rc == 0:
+                        path = write_replay("C04-program-%s.json" % name, {
+                            "property": "C04", "kind": "program", "name": name, "expect": "reject", "source": src,
+                            "what": "a client program that keeps a field after its buffer / a headers slice after its array is gone or mutated is accepted by the compiler"})
+                        res.add_violation(path, "escaping program %s compiles" % name)
+                    elif not borrowish:
+                        raise Machinery("must-reject program %s fails for another reason (API drift?): %s %s" % (name, codes, msgs[:2]))
+                    else:
+                        rejected += 1
+                else:
+                    if rc != 0 and borrowish:
+                        path = write_replay("C04-program-%s.json" % name, {
+                            "property": "C04", "kind": "program", "name": name, "expect": "compile", "source": src,
+                            "what": "a legitimate usage pattern no longer compiles (lifetime over-constrained)", "errors": msgs[:3]})
+                        res.add_violation(path, "usage pattern %s rejected: %s" % (name, msgs[:1]))
+                    elif rc != 0:
+                        raise Machinery("must-compile program %s fails to compile for a non-borrow reason: %s %s" % (name, codes, msgs[:2]))
+                    else:
+                        accepted += 1
+    finally:
+        shutil.rmtree(workdir, ignore_errors=True)
+    res.states += len(progs)
+    res.transitions += len(progs)
+    res.samples.append({"program": progs[0][0], "expect": progs[0][1], "source": progs[0][2]})
+    res.engines.append({"engine": "client-program corpus (rustc --emit=metadata against the rlib built from /repo; verdict read from --error-format=json)",
+                        "programs": len(progs), "must_reject_rejected_with_borrow_error": rejected, "must_compile_accepted": accepted,
+                        "space": "entry points x returned fields x escapes {buffer dropped, buffer mutated, array dropped, array written, returned as 'static} + usage patterns that must keep compiling"})
+
+
+# ------------------------------------------------------------------------------------------
+# C20: instruction counts under cachegrind
+# ------------------------------------------------------------------------------------------
+
+def run_cachegrind(res):
+    binary = build_variant("runtime", "release")
+    fams = run([binary, "families"])[1].split()
+    base = 32 << 10 if res.tier == "quick" else 128 << 10
+    jobs = [(f, base * m) for f in fams for m in (1, 2, 4)]
+
+    def one(job):
+        f, n = job
+        rc, so, se, dt = run(["valgrind", "--tool=cachegrind", "--cache-sim=no", "--cachegrind-out-file=/dev/null", binary, "work", f, str(n)], timeout=1200)
+        m = re.search(r"I\s+refs:\s+([\d,]+)", se)
+        if rc != 0 or not m:
+            raise Machinery("cachegrind run failed for %s %d: %s" % (f, n, se[-500:]))
+        return job, int(m.group(1).replace(",", ""))
+
+    counts = {}
+    with concurrent.futures.ThreadPoolExecutor(max_workers=os.cpu_count() or 8) as ex:
+        for job, n in ex.map(one, jobs):
+            counts[job] = n
+    rows = []
+    for f in fams:
+        a, b, c = (counts[(f, base * m)] for m in (1, 2, 4))
+        d1, d2 = b - a, c - b
+        ratio = d2 / max(d1, 1)
+        rows.append({"family": f, "sizes": [base, 2 * base, 4 * base], "instructions": [a, b, c], "increment_ratio": round(ratio, 2)})
+        if ratio > 3.0:
+            path = write_replay("C20-work-%s.json" % f, {"property": "C20", "kind": "work", "family": f, "base": base,
+                                                          "instructions": [a, b, c], "what": "instruction count grows super-linearly with the buffer length (increment ratio %.2f > 3.0)" % ratio})
+            res.add_violation(path, "family %s: instructions %d/%d/%d" % (f, a, b, c))
+    res.states += len(jobs)
+    res.transitions += len(jobs)
+    res.engines.append({"engine": "instruction counts (valgrind --tool=cachegrind --cache-sim=no on the release digest binary)",
+                        "rule": "I(4N)-I(2N) <= 3.0 x (I(2N)-I(N)); buffer construction is counted too", "rows": rows})
+
+
+# ------------------------------------------------------------------------------------------
+# dispatch
+# ------------------------------------------------------------------------------------------
 
 def run_for(prop, tier, res):
-    return []
+    extra = []
+    if prop == "C18":
+        run_histories(res, "reuse", "C18")
+        extra.append("histories: <= %d earlier calls drawn from 17 buffers x %d entry points per message kind, capacities 0..3; canonicalised by the snapshot of everything a later call can read, cross-checked by an un-canonicalised search one level shallower" % ((3, 3) if tier == "quick" else (4, 4)))
+    elif prop == "C17":
+        run_histories(res, "reuse", "C17")
+    elif prop == "C02":
+        run_histories(res, "delivery", "C02")
+    elif prop == "C13":
+        run_lattice(res, "C13")
+        if not res.violations:
+            run_digests(res, "C13")
+        run_loom(res)
+        if tier != "quick":
+            run_cross_targets(res, "C13", ["aarch64", "i686", "core-only"])
+        extra.append("loom explores the C11 model of the one atomic; avx2/sse42/swar are stubs that record which backend ran on the simulated CPU")
+        extra.append("thread timing is decided by loom's exhaustive schedules, not by racing free-running processes (that would be sampling)")
+    elif prop == "C09":
+        run_digests(res, "C09", partitions=[18, 19])
+        extra.append("profile leg: chunk-size partitions of the digest corpus under release and dev (debug assertions) builds of every variant")
+    elif prop == "C19":
+        run_lattice(res, "C19")
+        run_cross_targets(res, "C19", ["core-only"])
+        extra.append("allocation: a counting #[global_allocator] in the explorer, per-thread counter read around every call")
+    elif prop == "C04":
+        run_lifetimes(res)
+        extra.append("static half decided on a finite generated corpus of client programs with rustc as the judge; not a proof over all safe programs")
+    elif prop == "C20":
+        run_cachegrind(res)
+        extra.append("cursor counters see work done through the cursor API; the instruction-count leg sees everything, on 3 sizes per family")
+    return extra
 
 
 def replay(rep, path):
-    print("no replay handler for kind %r" % rep.get("kind"))
+    kind = rep.get("kind")
+    if kind == "history":
+        binary = check.cargo_build("histories", "release")
+        rc, so, se, _ = run([binary, "replay", path])
+        print(so, end="")
+        return rc
+    if kind == "loom":
+        binary = check.cargo_build("rtloom", "release")
+        rc, so, se, _ = run([binary, rep["cpu"], str(rep["threads"]), str(rep["calls"])], timeout=3000)
+        print(se[-3000:])
+        print("loom exploration of cpu=%s %dx%d: %s" % (rep["cpu"], rep["threads"], rep["calls"], "FAILS again" if rc != 0 else "passes"))
+        return 1 if rc != 0 else 0
+    if kind == "build":
+        if "cross" in rep:
+            env = dict(ENV)
+            env["CARGO_TARGET_DIR"] = os.path.join(TARGET, "cross", rep["cross"])
+            rc, so, se, _ = run(rep["cmd"], cwd=REPO, env=env, timeout=1800)
+        else:
+            name, cmd, env = lattice_cmd(tuple(rep["point"]))
+            rc, so, se, _ = run(cmd, cwd=REPO, env=env, timeout=1200)
+        print(se[-3000:])
+        return 1 if rc != 0 else 0
+    if kind == "digest":
+        outs = []
+        for side in ("a", "b"):
+            s = rep[side]
+            b = build_variant(s["variant"], s["profile"])
+            rc, so, se, _ = run([b, "one", rep["entry"], str(rep["config"]), str(rep["capacity"]), rep["input_hex"], "--backend", s["backend"]])
+            print("%-45s %s" % (s["label"], so.strip()))
+            outs.append(so.strip())
+        return 1 if outs[0] != outs[1] else 0
+    if kind == "program":
+        rlib, deps = build_rlib()
+        workdir = os.path.join(TARGET, "lifetimes-replay-%d" % os.getpid())
+        os.makedirs(workdir, exist_ok=True)
+        try:
+            rc, codes, msgs = compile_program(rep["source"], rlib, deps, workdir, 0)
+        finally:
+            shutil.rmtree(workdir, ignore_errors=True)
+        print(rep["source"])
+        print("rustc: %s %s" % ("accepts" if rc == 0 else "rejects", codes))
+        if rep["expect"] == "reject":
+            return 1 if rc == 0 else 0
+        return 1 if rc != 0 else 0
+    if kind == "work":
+        binary = build_variant("runtime", "release")
+        vals = []
+        for m in (1, 2, 4):
+            rc, so, se, _ = run(["valgrind", "--tool=cachegrind", "--cache-sim=no", "--cachegrind-out-file=/dev/null", binary, "work", rep["family"], str(rep["base"] * m)])
+            vals.append(int(re.search(r"I\s+refs:\s+([\d,]+)", se).group(1).replace(",", "")))
+        ratio = (vals[2] - vals[1]) / max(vals[1] - vals[0], 1)
+        print("family %s: instructions %s, increment ratio %.2f" % (rep["family"], vals, ratio))
+        return 1 if ratio > 3.0 else 0
+    print("no replay handler for kind %r" % kind)
     return 2
